@@ -3,6 +3,7 @@ package expr
 import (
 	"errors"
 	"fmt"
+	"math"
 
 	"github.com/shopspring/decimal"
 	"github.com/verily-src/fhirpath-go/fhirpath/system"
@@ -171,6 +172,9 @@ func EvaluateFloorDiv(lhs, rhs system.Any) (system.Any, error) {
 		if right, ok := rhs.(system.Integer); ok {
 			if isZero(right) {
 				return nil, ErrDivideByZero
+			}
+			if left == math.MinInt32 && right == -1 {
+				return nil, system.ErrIntOverflow // 2^31 is not representable
 			}
 			return left.FloorDiv(right), nil
 		}
